@@ -61,6 +61,7 @@ static int g_final = 1, g_big = 60000;
 #define PATLEN (1u << 20)
 static unsigned char *pat[2];           /* pat[e][i] = byte i of the stream that arrives AT end e */
 static unsigned char scratch[1 << 17];
+static unsigned char fscratch[2048];    /* filters run re-entrantly inside bufferevent_read(): own buffer */
 
 /* ------------------------------------------------------------------ per-execution state */
 #define MAXSTACK 3
@@ -211,9 +212,9 @@ filt_cb(struct evbuffer *src, struct evbuffer *dst, ev_ssize_t lim, enum buffere
 		/* BEV_FLUSH / BEV_FINISHED: "flush as much data as we can" = everything that is allowed */
 		do {
 			size_t k = n > chunk ? chunk : n;
-			if (evbuffer_remove(src, scratch, k) != (int)k) return BEV_ERROR;
-			for (size_t i = 0; i < k; i++) scratch[i] ^= 0x5a;
-			if (evbuffer_add(dst, scratch, k) < 0) return BEV_ERROR;
+			if (evbuffer_remove(src, fscratch, k) != (int)k) return BEV_ERROR;
+			for (size_t i = 0; i < k; i++) fscratch[i] ^= 0x5a;
+			if (evbuffer_add(dst, fscratch, k) < 0) return BEV_ERROR;
 			n -= k;
 		} while (mode != BEV_NORMAL && n);
 		return BEV_OK;
@@ -390,16 +391,24 @@ static void readcb(struct bufferevent *bev, void *arg)
 	case P_FREE_PEER_RD: take = len; break;
 	default: take = len; break;
 	}
+	/* The application "reads" = copies out, checks, then drains.  The stream position is advanced BEFORE the
+	 * drain because draining can re-enter this callback (non-deferred filter with a high read mark:
+	 * drain -> inbuf_cb -> be_filter_read_nolock_ -> readcb). */
 	while (take) {
-		size_t n = take > sizeof scratch ? sizeof scratch : take;
-		size_t got = bufferevent_read(bev, scratch, n);
-		if (got != n) { KEY(k, "C17/short-remove/%s", tname()); mc_fail(k, "bufferevent_read returned %zu of %zu", got, n); break; }
-		if (memcmp(scratch, pat[c->id] + c->rd_total, n)) {
+		static unsigned char rdbuf[1 << 16];
+		size_t n = take > sizeof rdbuf ? sizeof rdbuf : take, have = in_len(c);
+		if (n > have) n = have;
+		if (!n) break;
+		if (evbuffer_copyout(bufferevent_get_input(bev), rdbuf, n) != (ev_ssize_t)n) { KEY(k, "C17/short-remove/%s", tname()); mc_fail(k, "copyout of %zu failed", n); break; }
+		if (memcmp(rdbuf, pat[c->id] + c->rd_total, n)) {
 			KEY(k, "C17/content/%s", tname());
 			mc_fail(k, "end %d: bytes read at stream offset %zu differ from what was written", c->id, c->rd_total);
 		}
 		c->rd_total += n; take -= n;
+		if (c->prev_in_len >= n) c->prev_in_len -= n; else c->prev_in_len = 0;
 		MC_COUNTN("c17_bytes_verified", n);
+		if (evbuffer_drain(bufferevent_get_input(bev), n) < 0) { KEY(k, "C17/short-remove/%s", tname()); mc_fail(k, "drain of %zu failed", n); break; }
+		if (c->freed) return;
 	}
 	if (c->policy != P_LEAVE) {
 		/* after the application drained: C18 resume bookkeeping */
@@ -620,6 +629,7 @@ static void build_alphabet(const char *g)
 	case 'r': for (int e = 0; e < nends; e++) for (int i = 0; i < 4; i++) addop(OP_RWM, e, rwm_tab[i][0], rwm_tab[i][1]); break;
 	case 'R': for (int e = 0; e < nends; e++) for (int i = 4; i < 8; i++) addop(OP_RWM, e, rwm_tab[i][0], rwm_tab[i][1]); break;
 	case 'q': for (int i = 0; i < 8; i++) addop(OP_RWM, 1, rwm_tab[i][0], rwm_tab[i][1]); break;   /* B only, all settings */
+	case 'Q': { static const int qi[] = { 1, 2, 4, 0 }; for (int i = 0; i < 4; i++) addop(OP_RWM, 1, rwm_tab[qi[i]][0], rwm_tab[qi[i]][1]); } break;
 	case 'o': for (int e = 0; e < nends; e++) for (int i = 0; i < 4; i++) addop(OP_WWM, e, wwm_tab[i], 0); break;
 	case 'O': for (int i = 0; i < 4; i++) addop(OP_WWM, 0, wwm_tab[i], 0); break;
 	case 'u': for (int e = 0; e < nends; e++) for (int i = 0; i < 3; i++) addop(OP_UWM, e, uwm_tab[i], 0); break;
